@@ -302,6 +302,7 @@ func checkBooleanBytes(c *hl.Ctx) {
 type profile struct {
 	Name   string   `json:"name"`
 	Nodes  int      `json:"max_nodes"`
+	Hinted int      `json:"max_nodes_with_count_hint_variants"`
 	Leaves int      `json:"leaves"`
 	Keys   []string `json:"keys"`
 	leaves []*ref.Tree
@@ -324,7 +325,7 @@ func hints(n int) []uint32 {
 
 func run(c *hl.Ctx) {
 	c.Rule("E3 bounded-exhaustive. (i) lib-to-ref: ALL value trees with <= N nodes over the leaf/key alphabets (distinct keys per container, every order), built with the public API, " +
-		"marshalled, read by the independent decoder. (ii) ref-to-lib: the same trees with ECMA count hint in {n, 0, n+1}, encoded by the independent encoder, decoded by the library, " +
+		"marshalled, read by the independent decoder. (ii) ref-to-lib: the same trees with ECMA count hint in {n, 0, n+1} (beyond the per-profile bound max_nodes_with_count_hint_variants: n only), encoded by the independent encoder, decoded by the library, " +
 		"read back through Get and through re-marshal + independent decoder; plus FFmpeg/FMLE/yamdi-style onMetaData sequences decoded by advancing Size(). " +
 		"(iii) all 256 marker bytes x spec-plausible bodies x 6 contexts (+ the library's keyed strict-array layout when a probe shows it is in use); boolean body bytes 0..255. " +
 		"Non-trivial = distinct case (hash of family + bytes) for which the judged clause was exercised and held: value decoded/encoded and compared equal, or unsupported marker rejected; " +
@@ -338,9 +339,10 @@ func run(c *hl.Ctx) {
 	keys4, keys2 := ref.DefaultKeys(), []string{"a", ""}
 	var profs []profile
 	if c.Quick() {
-		profs = []profile{{Name: "full", Nodes: 4, Keys: keys4, leaves: full}, {Name: "small", Nodes: 6, Keys: keys2, leaves: small}}
+		profs = []profile{{Name: "full", Nodes: 4, Hinted: 4, Keys: keys4, leaves: full}, {Name: "small", Nodes: 6, Hinted: 6, Keys: keys2, leaves: small}}
 	} else {
-		profs = []profile{{Name: "full", Nodes: 5, Keys: keys4, leaves: full}, {Name: "small", Nodes: 7, Keys: keys2, leaves: small}}
+		// count-hint variants (x3 per ECMA array) up to Hinted nodes, the honest hint only beyond
+		profs = []profile{{Name: "full", Nodes: 5, Hinted: 4, Keys: keys4, leaves: full}, {Name: "small", Nodes: 7, Hinted: 6, Keys: keys2, leaves: small}}
 	}
 	for i := range profs {
 		profs[i].Leaves = len(profs[i].leaves)
@@ -373,6 +375,9 @@ func run(c *hl.Ctx) {
 				continue // contained in the full profile at this size
 			}
 			g := &ref.Gen{Leaves: p.leaves, Keys: p.Keys, CountHints: hints}
+			if n > p.Hinted {
+				g.CountHints = nil
+			}
 			one := make([]*ref.Tree, 1)
 			g.Exact(n, func(t *ref.Tree) bool {
 				idx++
